@@ -50,7 +50,7 @@ PROPS = {
     "C03": {
         "props": "TrackVerif.Conv.PropsC03",
         "streams": [("CV", 1200, 15000)],
-        "clauses": ["cv.convert", "cv.fix_ids", "cv.first_fix_zero", "cv.overall_distance", "cv.lap_constants", "cv.no_crash"],
+        "clauses": ["cv.convert", "cv.fix_ids", "cv.first_fix_zero", "cv.overall_distance", "cv.lap_constants", "cv.true_distance", "cv.no_crash"],
         "rule": "PRNG(seed) sessions rendered as TrackAddict logs and decoded by the real decoder: 0..7 laps, 0..25 rows per lap with arbitrary GPS-update "
                 "patterns, positions from a palette of 2..8 points (real WGS-84 inverse distances for every ordered pair are sent as the model's oracle), "
                 "with/without acceleration and OBD columns, option sets (track, vehicle override, tags, note, positioning, differential status, start date); "
